@@ -17,7 +17,7 @@ func init() {
 	register(&Rule{ID: "A-ERR-IS", Props: []string{"C08"}, Floor: 8,
 		Doc: "every error type of the root package matches exactly one exported sentinel in its Is method and has no Unwrap; every internal evaluator error type matches at most one internal sentinel",
 		Run: ruleAErrIs})
-	register(&Rule{ID: "A-ERRMAP", Props: []string{"C08", "C04", "C03", "C05", "C02", "C19", "C09"}, Floor: 7,
+	register(&Rule{ID: "A-ERRMAP", Props: []string{"C08", "C04", "C03", "C05", "C02", "C19", "C09", "C13"}, Floor: 7,
 		Doc: "every concrete error type that can leave parser.Parse / evaluator.Evaluate is pushed through the decision chain of parseError / evaluateError (type assertions and errors.Is tests, in order, using the internal Is methods); the resulting public sentinel must be the category the specification names for that fault; wrappers with Unwrap may only wrap errors of library calls",
 		Run: ruleAErrMap})
 	register(&Rule{ID: "A-NIL-RESULT", Props: []string{"C08"}, Floor: 2,
@@ -411,6 +411,16 @@ func ruleAErrMap(p *Program, r *Reporter) {
 							seen[n] = true
 							out = append(out, src{n, instrPos(x), p.FuncName(fn)})
 						}
+					case *ssa.Call:
+						// fmt.Errorf with %w: a library wrapper around an error of the repository. It matches what the wrapped
+						// error matches under errors.Is, and nothing under a type assertion or ==.
+						if inner := fmtWrapped(x); inner != "" {
+							n := "wrap:" + inner
+							if !seen[n] {
+								seen[n] = true
+								out = append(out, src{n, instrPos(x), p.FuncName(fn)})
+							}
+						}
 					case *ssa.UnOp:
 						if g, ok := x.X.(*ssa.Global); ok && x.Op == token.MUL && isErrorType(x.Type()) && g.Pkg != nil && usedAsValue(x) {
 							n := g.Pkg.Pkg.Name() + "." + g.Name()
@@ -469,7 +479,7 @@ func ruleAErrMap(p *Program, r *Reporter) {
 					r.Unknown(s.pos, key, fnName+": "+why)
 					continue
 				}
-				want, have := expect[s.name]
+				want, have := expect[strings.TrimPrefix(s.name, "wrap:")]
 				if !have {
 					want = dflt
 				}
@@ -961,4 +971,97 @@ func simulateMapper(fn *ssa.Function, concrete string, internalIs map[string][]s
 		}
 	}
 	return "too many steps", false
+}
+
+// fmtWrapped: for a call fmt.Errorf(format, args...) whose constant format has a %w verb, the error source (a concrete
+// error type "*pkg.T" or a sentinel "pkg.Name") of the operand that verb wraps; "" otherwise.
+func fmtWrapped(c *ssa.Call) string {
+	fn := c.Common().StaticCallee()
+	if fn == nil || fn.String() != "fmt.Errorf" || len(c.Call.Args) != 2 {
+		return ""
+	}
+	fc, ok := c.Call.Args[0].(*ssa.Const)
+	if !ok || fc.Value == nil || fc.Value.Kind() != constant.String {
+		return ""
+	}
+	format := constant.StringVal(fc.Value)
+	// index of the operand the first %w consumes
+	argIdx, wIdx := 0, -1
+	for i := 0; i < len(format); i++ {
+		if format[i] != '%' {
+			continue
+		}
+		j := i + 1
+		for j < len(format) && strings.ContainsRune("+-# 0123456789.[]*", rune(format[j])) {
+			j++
+		}
+		if j >= len(format) {
+			break
+		}
+		if format[j] == '%' {
+			i = j
+			continue
+		}
+		if format[j] == 'w' {
+			wIdx = argIdx
+			break
+		}
+		argIdx++
+		i = j
+	}
+	if wIdx < 0 {
+		return ""
+	}
+	sl, ok := c.Call.Args[1].(*ssa.Slice)
+	if !ok {
+		return ""
+	}
+	al, ok := sl.X.(*ssa.Alloc)
+	if !ok {
+		return ""
+	}
+	for _, ref := range *al.Referrers() {
+		ia, ok := ref.(*ssa.IndexAddr)
+		if !ok {
+			continue
+		}
+		k, ok := ia.Index.(*ssa.Const)
+		if !ok || k.Int64() != int64(wIdx) {
+			continue
+		}
+		for _, r2 := range *ia.Referrers() {
+			st, ok := r2.(*ssa.Store)
+			if !ok {
+				continue
+			}
+			v := st.Val
+			for depth := 0; depth < 6; depth++ {
+				switch x := v.(type) {
+				case *ssa.ChangeInterface:
+					v = x.X
+					continue
+				case *ssa.MakeInterface:
+					if _, isI := x.X.Type().Underlying().(*types.Interface); isI {
+						v = x.X
+						continue
+					}
+					if _, isPtr := x.X.Type().(*types.Pointer); isPtr || isErrorImpl(x.X.Type()) {
+						return typeShort(x.X.Type())
+					}
+					return ""
+				case *ssa.UnOp:
+					if g, ok := x.X.(*ssa.Global); ok && x.Op == token.MUL && g.Pkg != nil {
+						return g.Pkg.Pkg.Name() + "." + g.Name()
+					}
+				}
+				break
+			}
+		}
+	}
+	return ""
+}
+
+func isErrorImpl(t types.Type) bool {
+	errT := types.Universe.Lookup("error").Type().Underlying().(*types.Interface)
+	return types.Implements(t, errT)
 }
